@@ -36,7 +36,8 @@ class C13(Check):
     LABELS = ["cd", "ce", "mnn", "2nn", "pcd"]
     RULE = ("get_crowding_function(label).do(F, n_remove=k) for cd / ce / mnn / 2nn / pcd with BOTH engines (each in its own worker process, so a kernel crash is an "
             "observation), non-dominated fronts of 1..24 points and 2..5 objectives: continuous simplex, grid, permutation-valued, constant objective, tied extremes, "
-            "duplicates; k in 0..N; values compared bit-exactly with the models of metrics.py, misc/*.py and of the compiled kernels (checked flat buffers; np.log2 and "
+            "duplicates, curve-like (two points hold all extremes); k in 0..N with the limits of the pruning range over-represented, and blocks that sweep every k from N-M-1 to N "
+            "on small 3+ objective fronts for all pruning metrics and both engines; values compared bit-exactly with the models of metrics.py, misc/*.py and of the compiled kernels (checked flat buffers; np.log2 and "
             "np.argpartition answers recorded as oracles); independent reference implementations of the published definitions on tie-free fronts; "
             "non-trivial = more than two points; distinct by hash")
     ASSUMPTIONS = ["np.log2 (libm) and np.argpartition (introselect tie choice) are oracles; the argpartition answer is validated (mnn0_ok) by the model",
@@ -47,10 +48,25 @@ class C13(Check):
 
     def gen(self, n):
         for _ in range(n):
+            if self.rng.random() < 0.02:
+                # the limits of the pruning range, systematically: a small front with 3+ objectives (curve-like half of the time, so that
+                # interior points remain when almost everything is pruned), all pruning metrics on both engines, every n_remove from N-M-1 to N
+                for _try in range(20):
+                    F, style = crowd.gen_front(self.rng, max_n=10, objs=(3, 3, 4), styles=["curve", "simplex"])
+                    if len(F) >= F.shape[1] + 2:
+                        break
+                N, M = F.shape
+                for label in ("mnn", "2nn", "pcd"):
+                    for eng in ("fallback", "compiled"):
+                        if label == "pcd" and eng == "compiled":
+                            continue          # compiled pcd with 3+ objectives: known finding, exercised by the random cases
+                        for k in range(max(0, N - M - 1), N + 1):
+                            yield {"F": enc(F), "style": style, "label": label, "n_remove": k, "engine": eng}
+                continue
             F, style = crowd.gen_front(self.rng)
             label = self.rng.choice(self.LABELS)
             eng = self.rng.choice(["compiled", "fallback"])
-            yield {"F": enc(F), "style": style, "label": label, "n_remove": self.rng.randint(0, len(F)), "engine": eng}
+            yield {"F": enc(F), "style": style, "label": label, "n_remove": crowd.pick_n_remove(self.rng, len(F), F.shape[1]), "engine": eng}
 
     def run(self, case):
         return run_metric(case)
